@@ -317,8 +317,59 @@ theorem init_wf (κ : Type) [Kind κ] (weighted : Bool) (hm : List (String × JT
   refine ⟨⟨List.nodup_nil, List.nodup_nil, fun n => Iff.rfl⟩, ⟨List.nodup_nil, ?_, ?_, ?_, ?_, ?_⟩⟩ <;>
     intros <;> simp_all [init, keys]
 
+theorem editNodeMeta_wf {t : Tables κ} (w : WF t) (n : Nat) (edit : JTree → Option JTree) :
+    WF (editNodeMeta t n edit).1 := by
+  unfold editNodeMeta
+  split
+  · rename_i md hmd
+    split
+    · exact ⟨nodeWF_set_nm w.node (mem_keys_of_get? hmd) _, w.edge⟩
+    · exact w
+  · exact w
+
+theorem editEdgeMeta_wf {t : Tables κ} (w : WF t) (raw : κ) (edit : JTree → Option JTree) :
+    WF (editEdgeMeta t raw edit).1 := by
+  unfold editEdgeMeta
+  split
+  · split
+    · split
+      · exact ⟨w.node, edgeWF_setM w.edge _ _⟩
+      · exact w
+    · exact w
+  · exact w
+
+theorem setHAttr_wf {t : Tables κ} (w : WF t) (f : String) (v : JTree) : WF (setHAttr t f v).1 := by
+  unfold setHAttr
+  split
+  · exact ⟨w.node, w.edge⟩
+  · exact w
+
+theorem addNodes_wf {t : Tables κ} (w : WF t) (items : List (Nat × Option JTree)) : WF (addNodes t items) := by
+  unfold addNodes
+  exact foldl_wf _ (fun s p ws => (addNode_nodeOnly s p.1 p.2).wf ws) items w
+
+theorem addEdges_wf [LawfulKind κ] {t : Tables κ} (w : WF t) (withW : Bool)
+    (items : List (κ × Option Num × Option JTree)) : WF (addEdges t withW items) := by
+  unfold addEdges
+  apply foldl_wf _ (fun s it ws => addEdge_wf ws _ _ _) items
+  split
+  · exact ⟨w.node, w.edge⟩
+  · exact w
+
+theorem build_wf (κ : Type) [Kind κ] [LawfulKind κ] (weighted : Bool) (hm : List (String × JTree))
+    (nodes : List (Nat × JTree)) (withW : Bool) (items : List (κ × Option Num × Option JTree)) :
+    WF (build κ weighted hm nodes withW items) :=
+  addEdges_wf (addNodes_wf (init_wf κ weighted hm) _) withW items
+
 theorem step_wf [LawfulKind κ] {t : Tables κ} (w : WF t) (op : Op κ) : WF (step t op).1 := by
   cases op with
+  | addNodes items => exact addNodes_wf w items
+  | addEdges withW items => exact addEdges_wf w withW items
+  | setNodeAttr n f v => exact editNodeMeta_wf w n _
+  | delNodeAttr n f => exact editNodeMeta_wf w n _
+  | setEdgeAttr k f v => exact editEdgeMeta_wf w k _
+  | delEdgeAttr k f => exact editEdgeMeta_wf w k _
+  | setHAttr f v => exact setHAttr_wf w f v
   | addNode n md => exact (addNode_nodeOnly t n md).wf w
   | addEdge k wv md => exact addEdge_wf w k wv md
   | removeEdge k => exact removeEdge_wf w k
@@ -332,6 +383,87 @@ theorem step_wf [LawfulKind κ] {t : Tables κ} (w : WF t) (op : Op κ) : WF (st
 theorem run_wf [LawfulKind κ] {t : Tables κ} (w : WF t) (ops : List (Op κ)) : WF (run t ops) := by
   unfold run
   exact foldl_wf _ (fun s o ws => step_wf ws o) ops w
+
+/-! ## batched calls are the sequence of their single calls; attribute edits are whole-entry replacements -/
+
+theorem step_addNodes (t : Tables κ) (items : List (Nat × Option JTree)) :
+    step t (.addNodes items) = (run t (items.map (fun p => Op.addNode p.1 p.2)), true) := by
+  simp only [step, addNodes, run, List.foldl_map]
+
+theorem step_addEdges_noW (t : Tables κ) (items : List (κ × Option Num × Option JTree)) :
+    step t (.addEdges false items) = (run t (items.map (fun it => Op.addEdge it.1 none it.2.2)), true) := by
+  simp only [step, addEdges, run, List.foldl_map, Bool.false_eq_true, if_false]
+
+theorem step_addEdges_withW (t : Tables κ) (hw : t.weighted = true) (items : List (κ × Option Num × Option JTree)) :
+    step t (.addEdges true items) = (run t (items.map (fun it => Op.addEdge it.1 it.2.1 it.2.2)), true) := by
+  have e : ({ t with weighted := true } : Tables κ) = t := by cases t; simp_all
+  simp only [step, addEdges, run, List.foldl_map, if_true, e]
+
+theorem build_eq_run (κ : Type) [Kind κ] (weighted : Bool) (hm : List (String × JTree))
+    (nodes : List (Nat × JTree)) (items : List (κ × Option Num × Option JTree)) :
+    build κ weighted hm nodes false items =
+      run (init κ weighted hm) (nodes.map (fun p => Op.addNode p.1 (some p.2)) ++
+        items.map (fun it => Op.addEdge it.1 none it.2.2)) := by
+  simp only [build, addEdges, addNodes, run, List.foldl_map, List.foldl_append, Bool.false_eq_true, if_false]
+  rfl
+
+/-- an accepted attribute edit of a node is `set_node_metadata` with the edited dictionary -/
+theorem editNodeMeta_eq_set {t : Tables κ} (w : WF t) {n : Nat} {edit : JTree → Option JTree} {md md' : JTree}
+    (hmd : get? t.nodeMeta n = some md) (he : edit md = some md') :
+    editNodeMeta t n edit = setNodeMeta t n md' := by
+  have hk : nodeKnown t n = true :=
+    (nodeKnown_iff w.node n).mpr ((w.node.same n).mpr (mem_keys_of_get? hmd))
+  unfold editNodeMeta setNodeMeta
+  rw [hmd]
+  simp only [he, hk, if_true]
+
+/-- a rejected attribute edit of a node changes nothing -/
+theorem editNodeMeta_rejected (t : Tables κ) (n : Nat) (edit : JTree → Option JTree)
+    (h : (editNodeMeta t n edit).2 = false) : (editNodeMeta t n edit).1 = t := by
+  unfold editNodeMeta at h ⊢
+  split
+  · split
+    · simp_all
+    · rfl
+  · rfl
+
+/-- an attribute edit of node `n` leaves every other node's entry, and all other tables, as they are -/
+theorem editNodeMeta_local (t : Tables κ) (n : Nat) (edit : JTree → Option JTree) :
+    (∀ m, m ≠ n → get? (editNodeMeta t n edit).1.nodeMeta m = get? t.nodeMeta m) ∧
+    (editNodeMeta t n edit).1.adj = t.adj ∧ (editNodeMeta t n edit).1.edgeList = t.edgeList ∧
+    (editNodeMeta t n edit).1.weights = t.weights ∧ (editNodeMeta t n edit).1.edgeMeta = t.edgeMeta ∧
+    (editNodeMeta t n edit).1.hmeta = t.hmeta ∧ (editNodeMeta t n edit).1.weighted = t.weighted := by
+  unfold editNodeMeta
+  split
+  · split
+    · exact ⟨fun m hm => get?_set_ne _ _ _ _ (fun e => hm e.symm), rfl, rfl, rfl, rfl, rfl, rfl⟩
+    · exact ⟨fun _ _ => rfl, rfl, rfl, rfl, rfl, rfl, rfl⟩
+  · exact ⟨fun _ _ => rfl, rfl, rfl, rfl, rfl, rfl, rfl⟩
+
+/-- an accepted attribute edit of a hyperedge is `set_edge_metadata` with the edited dictionary -/
+theorem editEdgeMeta_eq_set {t : Tables κ} {raw : κ} {edit : JTree → Option JTree} {id : Nat} {md md' : JTree}
+    (hid : get? t.edgeList (Kind.canonK raw) = some id) (hmd : get? t.edgeMeta id = some md)
+    (he : edit md = some md') : editEdgeMeta t raw edit = setEdgeMeta t raw md' := by
+  unfold editEdgeMeta setEdgeMeta
+  rw [hid]
+  simp only [hmd, he]
+
+/-- an attribute edit of a hyperedge leaves the entry of every other id, and all other tables, as they are -/
+theorem editEdgeMeta_local (t : Tables κ) (raw : κ) (edit : JTree → Option JTree) :
+    (∀ id, get? t.edgeList (Kind.canonK raw) ≠ some id →
+        get? (editEdgeMeta t raw edit).1.edgeMeta id = get? t.edgeMeta id) ∧
+    (editEdgeMeta t raw edit).1.adj = t.adj ∧ (editEdgeMeta t raw edit).1.edgeList = t.edgeList ∧
+    (editEdgeMeta t raw edit).1.weights = t.weights ∧ (editEdgeMeta t raw edit).1.nodeMeta = t.nodeMeta ∧
+    (editEdgeMeta t raw edit).1.hmeta = t.hmeta ∧ (editEdgeMeta t raw edit).1.weighted = t.weighted := by
+  unfold editEdgeMeta
+  split
+  · rename_i id0 hid0
+    split
+    · split
+      · refine ⟨fun id hne => get?_set_ne _ _ _ _ (fun e => hne (e ▸ hid0)), rfl, rfl, rfl, rfl, rfl, rfl⟩
+      · exact ⟨fun _ _ => rfl, rfl, rfl, rfl, rfl, rfl, rfl⟩
+    · exact ⟨fun _ _ => rfl, rfl, rfl, rfl, rfl, rfl, rfl⟩
+  · exact ⟨fun _ _ => rfl, rfl, rfl, rfl, rfl, rfl, rfl⟩
 
 /-- `WF` from the facts that the container invariants of C01–C04 state about the same tables
 (`C01.Inv`: `adj_nodup`, `nm_keys`, `el_nodup`, `rev_of_edge`, `edge_of_rev`, `id_lt`, `w_dom`, `m_dom`, `key_canon`;
